@@ -212,6 +212,9 @@ struct Scenario {
     programs: Vec<Vec<usize>>, // indices into OPS
     /// true: each program is one pipelined chunk sent over its own real connection handler
     conn: bool,
+    /// true: the scheduler may also let 2 s of (virtual) time pass once, at any point - a shard that is not
+    /// polled for that long is a stalled shard; any timer the code under test arms can then fire
+    stall: bool,
 }
 
 enum RunResult {
@@ -308,6 +311,10 @@ fn run_once(sc: &Scenario, ch: &mut Chooser) -> (RunResult, Vec<String>) {
         rt.block_on(async {
             let (k, q) = keys_for(sc.shards);
             let mut node = Node::new(sc.shards, VerifTime::new(1_000_000));
+            if sc.stall {
+                node.sched.advance_left = 1;
+                node.sched.advance_by = Duration::from_secs(2);
+            }
             let hist: Hist = Rc::new(RefCell::new(Vec::new()));
             for (i, p) in sc.programs.iter().enumerate() {
                 let prog: Vec<Argv> = p.iter().map(|o| subst(OPS[*o], &k, &q)).collect();
@@ -348,7 +355,7 @@ fn paths_of(sc: &Scenario) -> String {
 }
 
 fn scenario_json(sc: &Scenario, schedule: &[u32]) -> serde_json::Value {
-    json!({"shards": sc.shards, "conn": sc.conn, "programs": sc.programs.iter().map(|p| p.iter().map(|o| OPS[*o]).collect::<Vec<_>>()).collect::<Vec<_>>(), "schedule": schedule})
+    json!({"shards": sc.shards, "conn": sc.conn, "stall": sc.stall, "programs": sc.programs.iter().map(|p| p.iter().map(|o| OPS[*o]).collect::<Vec<_>>()).collect::<Vec<_>>(), "schedule": schedule})
 }
 
 /// All multisets of `clients` programs of length `len` over `alphabet` (clients are symmetric).
@@ -360,7 +367,7 @@ fn scenarios(shards: usize, clients: usize, len: usize, alphabet: &[usize], conn
     let mut out = Vec::new();
     fn rec(programs: &[Vec<usize>], clients: usize, start: usize, cur: &mut Vec<Vec<usize>>, out: &mut Vec<Scenario>, shards: usize) {
         if cur.len() == clients {
-            out.push(Scenario { shards, programs: cur.clone(), conn: false });
+            out.push(Scenario { shards, programs: cur.clone(), conn: false, stall: false });
             return;
         }
         for i in start..programs.len() {
@@ -389,7 +396,7 @@ fn main() {
             .iter()
             .map(|p| p.as_array().unwrap().iter().map(|o| OPS.iter().position(|x| *x == o.as_str().unwrap()).expect("op in alphabet")).collect())
             .collect();
-        let sc = Scenario { shards: r["shards"].as_u64().unwrap() as usize, programs, conn: r["conn"].as_bool().unwrap_or(false) };
+        let sc = Scenario { shards: r["shards"].as_u64().unwrap() as usize, programs, conn: r["conn"].as_bool().unwrap_or(false), stall: r["stall"].as_bool().unwrap_or(false) };
         let schedule: Vec<u32> = r["schedule"].as_array().unwrap().iter().map(|x| x.as_u64().unwrap() as u32).collect();
         let mut ch = polex::replay_prefix(&schedule);
         let (res, trace) = run_once(&sc, &mut ch);
@@ -443,6 +450,7 @@ fn main() {
         ("RMW breadth: 2clients x 1op over 34 conditional/read-modify-write commands + SET/GET/INCR/APPEND/DEL/GETSET, 2 shards", 2, 2, 1, rmw.clone(), NONE, NONE),
         ("batch order: 1 client, a big same-key SET batch and a read, 2 shards", 2, 1, 2, vec![BSN_FROM, BSN_FROM + 1, BSN_FROM + 2, 0, 3], NONE, NONE),
         ("batch order: a big same-key SET batch next to a second client on another key, 2 shards", 2, 2, 1, vec![BSN_FROM, BSN_FROM + 1, 14, 15], NONE, NONE),
+        ("stall: 2clients x 2ops on the pooled/fast paths, one 2 s pause of the clock anywhere, 2 shards", 2, 2, 2, vec![5, 6, 3, 14], NONE, NONE),
         ("CONN: 2 connections x 2 pipelined commands, 2 shards", 2, 2, 2, conn_ops.clone(), NONE, NONE),
         ("CONN: 3 connections x 1 command, 1 shard", 1, 3, 1, conn_ops.clone(), NONE, NONE),
     ];
@@ -460,7 +468,12 @@ fn main() {
     let mut exhaustive = true;
     let mut samples = Vec::new();
     for (label, shards, clients, len, alpha, bound, delay_cap) in groups {
-        let scs = scenarios(shards, clients, len, &alpha, label.starts_with("CONN"));
+        let mut scs = scenarios(shards, clients, len, &alpha, label.starts_with("CONN"));
+        if label.starts_with("stall") {
+            for s in scs.iter_mut() {
+                s.stall = true;
+            }
+        }
         let deadline = Instant::now() + per_group;
         // iterative delay bounding: explore everything with <= d non-default picks at blocked points,
         // d = 2,3,4,... up to the group's cap, until the space is exhausted or the time slice ends
